@@ -261,8 +261,8 @@ func (trans *Transport) getConn(ctx context.Context) (conn *conn, err error) {
 		trans.lock.Lock()
 		if trans.conns[key] == conn {
 			delete(trans.conns, key)
-			cancel()
 		}
+		cancel()
 		trans.lock.Unlock()
 	}
 	go conn.Send(ctx, onExit)
